@@ -21,7 +21,7 @@ P['C12'] = dict(
 P['C14'] = dict(
   design_ref='DESIGN.md section 3 C14',
   level_text='For every instance inside the bounds the solver shows on the real Transportation1d code: solve() returns without throwing a valid plan whose cost is minimal against an arbitrary symbolic competitor plan; assign() returns one in-range, positive-demand sink per source, agrees with the plan on unsplit sources, and violates no container contract (zero supplies/demands included); also after balanceDemand. Family A: positions symbolic (|v|<=1e8, unsorted, duplicates), quantities enumerated; family B: quantities symbolic, position patterns enumerated.',
-  text=dict(bounds=dict(quick='family A: <=2 sources x <=2 sinks, supplies/demands enumerated 0..2, 1 source x <=3 sinks and <=3 sources x <=2 sinks with quantities 0..1, positions symbolic |v|<=1e8; family B: 2x2, positions enumerated 0..2, quantities symbolic 0..2^20',
+  text=dict(bounds=dict(quick='family A: <=2 sources x <=2 sinks, supplies/demands enumerated 0..2, 1 source x <=3 sinks with quantities 0..1, and 3 unit sources x 3 sinks given in non-decreasing order with demands 1..2 (no balancing), positions symbolic |v|<=1e8; family B: 2x2, positions enumerated 0..2, quantities symbolic 0..2^20',
                         thorough='family A: <=3x3, quantities 0..2; family B: <=3x2 positions 0..2 quantities symbolic'),
             outside='more than 3 sources or sinks; quantities above the enumerated range in family A; positions beyond 1e8'),
   assumptions=STD_ASSUME + ['precondition of the property: total supply <= total demand and at least one sink with positive demand', 'competitor plans are integral (sufficient: transportation polytope is integral)'],
@@ -29,7 +29,7 @@ P['C14'] = dict(
     dict(name='H14A', src='C14_transport1d.cpp', covers=['precondition holds', 'end'], defines={'VCAP': 12, 'NS': 2, 'NK': 2, 'QMAX': 2, 'FAMILY_A': None}, cfg=dict(fp='exact'),
          thorough=dict(defines={'NS': 3, 'NK': 3})),
     dict(name='H14A3', src='C14_transport1d.cpp', covers=['precondition holds', 'end'], defines={'VCAP': 12, 'NS': 1, 'NK': 3, 'QMAX': 1, 'FAMILY_A': None}, cfg=dict(fp='exact')),
-    dict(name='H14A33', src='C14_transport1d.cpp', covers=['precondition holds', 'end'], defines={'VCAP': 12, 'NS': 3, 'NK': 3, 'QMAX': 2, 'SMAX': 0, 'ONLYFULL': None, 'SORTEDSINKS': None, 'FAMILY_A': None}, cfg=dict(fp='exact')),
+    dict(name='H14A33', src='C14_transport1d.cpp', covers=['precondition holds', 'end'], defines={'VCAP': 12, 'NS': 3, 'NK': 3, 'QMAX': 2, 'SMAX': 0, 'DMIN': 1, 'NOBALANCE': None, 'ONLYFULL': None, 'SORTEDSINKS': None, 'FAMILY_A': None}, cfg=dict(fp='exact'), split=3),
     dict(name='H14B', src='C14_transport1d.cpp', covers=['precondition holds', 'end'], defines={'VCAP': 12, 'NS': 2, 'NK': 2, 'PRANGE': 3, 'QLIM': 1048576, 'FAMILY_B': None}, cfg=dict(fp='exact'),
          thorough=dict(defines={'NS': 3, 'NK': 2})),
   ])
